@@ -6,7 +6,7 @@ use serde_json::{Value, json};
 
 pub static PROP: Prop = Prop {
     id: "C16",
-    rule: "(a) the full product of 22 hint positions (plus a `koto.type` anchor) (six positions binding `_` / `_name` with a hint, let, second target of a multi-let, for argument, unpacked for argument, function argument, unpacked function argument, variadic-free default argument, implicit and explicit return value, yield, match arm, nested match pattern, typed catch) x 44 hints (11 built-in type names, Object, three user @type names of a @base chain, an unknown name, a wrong-case name, Any / Callable / Indexable / Iterable, each with and without `?`) x 26 runtime values (every value kind, native and generator functions, iterators, objects with @type, without @type, with @base chains of depth 1-3, with @call / @index / @iterator / @next), each site run in its own try wrapper under enable_type_checks on and off: a checking site raises exactly when the oracle (own type name, then the @type of each @base in turn; `?` admits null; the four special hints by the guide's definitions) says mismatch, match and catch sites select / fall through instead, and with checks disabled every checking site passes while match / catch sites are unchanged; `koto.type` of every value is anchored to the declared name. (b) proptest-sampled composite programs threading one value through five hinted positions (argument -> let -> for -> match -> return) in nested frames: the first mismatching position in evaluation order decides. (c) every runnable corpus program (guide, core-library docs, test scripts) that succeeds with checks enabled prints the same with checks disabled. Non-trivial: a site where the plain type-name comparison alone gives the wrong answer (null with `?`, special hints, @base chains, objects) or any mismatch.",
+    rule: "(a) the full product of 25 hint positions (plus a `koto.type` anchor) (three multi-lets whose right-hand side is one iterated value, six positions binding `_` / `_name` with a hint, let, second target of a multi-let, for argument, unpacked for argument, function argument, unpacked function argument, variadic-free default argument, implicit and explicit return value, yield, match arm, nested match pattern, typed catch) x 44 hints (11 built-in type names, Object, three user @type names of a @base chain, an unknown name, a wrong-case name, Any / Callable / Indexable / Iterable, each with and without `?`) x 26 runtime values (every value kind, native and generator functions, iterators, objects with @type, without @type, with @base chains of depth 1-3, with @call / @index / @iterator / @next), each site run in its own try wrapper under enable_type_checks on and off: a checking site raises exactly when the oracle (own type name, then the @type of each @base in turn; `?` admits null; the four special hints by the guide's definitions) says mismatch, match and catch sites select / fall through instead, and with checks disabled every checking site passes while match / catch sites are unchanged; `koto.type` of every value is anchored to the declared name. (b) proptest-sampled composite programs threading one value through five hinted positions (argument -> let -> for -> match -> return) in nested frames: the first mismatching position in evaluation order decides. (c) every runnable corpus program (guide, core-library docs, test scripts) that succeeds with checks enabled prints the same with checks disabled. Non-trivial: a site where the plain type-name comparison alone gives the wrong answer (null with `?`, special hints, @base chains, objects) or any mismatch.",
     assumptions: &[
         "not judged (guide silent or implementation deliberately narrower): Callable for generator functions, Iterable for objects without @iterator/@next (they still iterate their entries) ",
         "the text of type-check errors is not judged, only that an error is raised at the site",
@@ -87,7 +87,7 @@ fn plain_comparison_suffices(v: &Val, hint: &str, optional: bool) -> bool {
     matches(v, hint, optional) == Some(own) && own
 }
 
-pub const POSITIONS: [&str; 23] = ["for-unpack-ignored-first", "arg-unpack-ignored-first", "let-multi-ignored-first", "let-multi-ignored", "for-ignored", "for-unpack-ignored", "arg-ignored", "arg-unpack-ignored", "match-ignored", "type-name", "let", "let-multi", "for", "for-unpack", "arg", "arg-unpack", "arg-default", "ret", "ret-explicit", "yield", "match", "match-nested", "catch"];
+pub const POSITIONS: [&str; 26] = ["let-iter-ignored-first", "let-iter-ignored", "let-iter", "for-unpack-ignored-first", "arg-unpack-ignored-first", "let-multi-ignored-first", "let-multi-ignored", "for-ignored", "for-unpack-ignored", "arg-ignored", "arg-unpack-ignored", "match-ignored", "type-name", "let", "let-multi", "for", "for-unpack", "arg", "arg-unpack", "arg-default", "ret", "ret-explicit", "yield", "match", "match-nested", "catch"];
 
 fn is_checking(pos: &str) -> bool {
     !matches!(pos, "type-name" | "match" | "match-nested" | "match-ignored" | "catch")
@@ -103,6 +103,10 @@ fn site_source(k: usize, pos: &str, vexpr: &str, hint: &str) -> String {
         "for-unpack-ignored-first" => format!("  q = 'none'\n  for _: {hint}, b, c in ((mk(), 7, 8),)\n    q = if b == 7 and c == 8 then 'ok' else 'shifted'\n  q\n"),
         "arg-unpack-ignored-first" => format!("  f = |(_: {hint}, b, c)| if b == 7 and c == 8 then 'ok' else 'shifted'\n  f((mk(), 7, 8))\n"),
         "let-multi-ignored-first" => format!("  let _: {hint}, b, c = mk(), 7, 8\n  if b == 7 and c == 8 then 'ok' else 'shifted'\n"),
+        // the right-hand side is one value that is iterated, not a literal comma-separated list
+        "let-iter-ignored-first" => format!("  src = [mk(), 7, 8]\n  let _: {hint}, b, c = src\n  if b == 7 and c == 8 then 'ok' else 'shifted'\n"),
+        "let-iter-ignored" => format!("  let a: Any, _y: {hint}, c = (7, mk(), 8)\n  if a == 7 and c == 8 then 'ok' else 'shifted'\n"),
+        "let-iter" => format!("  let a: Any, x: {hint}, c = [7, mk(), 8]\n  if a == 7 and c == 8 then 'ok' else 'shifted'\n"),
         "for-ignored" => format!("  q = 'none'\n  for _: {hint} in (mk(),)\n    q = 'ok'\n  q\n"),
         "for-unpack-ignored" => format!("  q = 'none'\n  for a, _y: {hint} in ((0, mk()),)\n    q = 'ok'\n  q\n"),
         "arg-ignored" => format!("  f = |_: {hint}| 'ok'\n  f mk()\n"),
